@@ -38,7 +38,7 @@ func runC07(c *rules.Ctx) {
 	c.CallArg(IT, "sdkmath.LegacyDec.SubMut", 0, "has(cl.Keeper.GetTickInfo(k,ctx,poolId,tickIndex)#0.LiquidityNet)", "on the tick's net liquidity")
 	c.CallArg(IT, "sdkmath.LegacyDec.AddMut", 0, "has(cl.Keeper.GetTickInfo(k,ctx,poolId,tickIndex)#0.LiquidityNet)", "on the tick's net liquidity")
 	c.HasCall(IT, "cl.Keeper.SetTickInfo", []string{"k", "ctx", "poolId", "tickIndex", "_"}, true, "the tick is stored under its own index", "")
-	c.ReturnCase(IT, 0, "sdkmath.LegacyDec.IsZero(has(cl.Keeper.GetTickInfo(k,ctx,poolId,tickIndex)#0.LiquidityNet))", "true", true, "the tick is reported empty only when (gross and) net liquidity are zero")
+	c.ReturnOnlyUnder(IT, 0, "sdkmath.LegacyDec.IsZero(has(cl.Keeper.GetTickInfo(k,ctx,poolId,tickIndex)#0.LiquidityNet))", "true", "the tick is reported empty only when (gross and) net liquidity are zero")
 	// ---- pool predicates
 	const P = "x/concentrated-liquidity/model.Pool."
 	c.Returns(P+"IsCurrentTickInRange", 0, "phi(false, lt(p.CurrentTick, upperTick)) | phi(lt(p.CurrentTick, upperTick), false)", "in range ⇔ lower ≤ current < upper (upper edge exclusive)", "")
